@@ -229,7 +229,9 @@ def r_reader_writer(F, R, cat=None):
             continue
         ctx = Ctx(b)
         R.saw(b)
-        forms = [tree(ctx, o) for o in ctx.org.local(0)]
+        from expr import inlining
+        with inlining():
+            forms = [tree(ctx, o) for o in ctx.org.local(0)]
         p0 = ("place", b.key, ("arg", 2), ("f:0",))
         p1 = ("place", b.key, ("arg", 2), ("f:1",))
         pw = ("place", b.key, ("arg", 2), ())
